@@ -472,7 +472,7 @@ inductive Res where
   | div0
   | sqrtneg
   | invalid
-  deriving Repr, BEq
+  deriving Repr, BEq, DecidableEq
 
 /-- common tail of div.c:137-146 / set_q.c:134-143 / ui_div.c:108-117: quotient of prec+1 limbs,
     strip one possible high zero limb -/
@@ -506,10 +506,8 @@ def div_ui (prec : Nat) (u : F) (v : Nat) : Res :=
     let tsize := prec + 1                                                         -- :75
     let up := top tsize u.d                                                       -- :78-83
     let t := val up * B ^ (tsize - up.length)                                     -- :84-91
-    let rp := toLimbs tsize (t / v)                                               -- :93 mpn_divmod_1
-    let hz := if topLimb rp = 0 then 1 else 0                                     -- :94-97
-    let rd := rp.take (tsize - hz)
-    .ok ⟨prec, if u.size ≥ 0 then rd.length else -(rd.length : Int), u.exp - hz, rd⟩
+    -- :93 mpn_divmod_1 gives tsize quotient limbs; :94-99 strip one possible high zero limb, sign of u
+    .ok (quotFinish prec (u.size < 0) (t / v) u.exp)
 
 /-- ui_div.c:30-119 -/
 def ui_div (prec : Nat) (u : Nat) (v : F) : Res :=
